@@ -121,6 +121,7 @@ package container
 //@ func uint32sToBytes
 //@   mode bv
 //@   tags C18 C10
+//@   requires [small] len(u) <= 64
 //@   ensures [len] len(result) == len(u) * 4
 //@   ensures [fresh] fresh(result)
 //@   pure
